@@ -167,6 +167,9 @@ def _c08_tasks(tier, seed):
         parts = 2
         for part in range(parts):
             out.append(("unit_c08_crash", (name, part, parts, seed, tier == "thorough")))
+    # a save that cannot create its temporary file (crash enumeration only: there is no successful
+    # save to compare with the model's step list)
+    out.append(("unit_c08_crash", ("dict_default_longname", 0, 1, seed, tier == "thorough")))
     for mode in ("atomic", "write_concern", "plain", "atomic+awkward", "write_concern+awkward", "plain+awkward"):
         out.append(("unit_c08_unserialisable", (mode, seed)))
     return out
@@ -549,7 +552,7 @@ def replay(prop, path):
         import c19
         ex = payload["extra"]
         base = c19.run_child(dict(numpy=ex["numpy"], repo=env.REPO, history=[], probes=ex["probes"] and sorted(ex["probes"])))
-        got = c19.run_child(dict(numpy=ex["numpy"], repo=env.REPO, history=ex["history"], probes=ex["probes"]))
+        got = c19.run_child(dict(numpy=ex["numpy"], repo=env.REPO, history=ex["history"], probes=ex["probes"], order_seed=ex.get("order_seed")))
         a, b = base.get(ex["value"], {}).get(ex["probe"]), got.get(ex["value"], {}).get(ex["probe"])
         if ex.get("analog"):
             # a class created on the fly against the equivalent long-lived class, in the SAME run
